@@ -230,7 +230,7 @@ func cmdCheck(args []string) {
 					hadLocked = true
 				}
 			}
-			if hadLocked && (strings.Contains(r.Err, "unknown identifier") || strings.Contains(r.Err, "loop is not a range") || strings.Contains(r.Err, "no counted call seen")) {
+			if hadLocked && !strings.Contains(r.Err, "global invariant") && (strings.Contains(r.Err, "unknown identifier") || strings.Contains(r.Err, "loop is not a range") || strings.Contains(r.Err, "no counted call seen")) {
 				// the contract names a local variable that the function no longer has
 				// (renamed or removed): the contract needs maintenance; nothing is
 				// decided about this function, which is not evidence of a violation
